@@ -527,9 +527,9 @@ func handleZINTERSTORE(params internal.HandlerFuncParams) ([]byte, error) {
 	destination := k.WriteKeys[0]
 
 	// Remove the destination keys from the command before parsing it
-	cmd := slices.DeleteFunc(params.Command, func(s string) bool {
-		return s == destination
-	})
+	// (only the destination argument itself: a source key, weight or option that is spelled like the
+	// destination stays, and the caller's command is left intact)
+	cmd := append([]string{params.Command[0]}, params.Command[2:]...)
 
 	keys, weights, aggregate, _, err := extractKeysWeightsAggregateWithScores(cmd)
 	if err != nil {
